@@ -356,3 +356,36 @@ pub fn c10_kf_remove_move_promotion() {
 pub fn c10_remove_move_mid_promotion() {
     body_remove_move(U, false, true)
 }
+
+// ------------------------------------------------------------ single-move legality (C01 clause)
+/// `Board::is_legal(mv)` is `legals().any(|m| m == mv)`: with the generated list replaced by an
+/// arbitrary iterator state as the generator returns it (cursor at the start, full mask, no
+/// promotion group in progress), the answer is exactly membership of mv in the list's moves -
+/// so "asking whether a single given move is legal gives the same answer" as the generator (C01).
+static mut LIST: Option<St> = None;
+fn stub_legals(_b: &chess_movegen::Board) -> MoveGen {
+    unsafe { LIST.as_ref().unwrap().to_real() }
+}
+#[kani::proof]
+#[kani::unwind(30)]
+#[kani::stub(chess_movegen::Board::legals, stub_legals)]
+pub fn c10_is_legal_is_membership_in_the_generated_list() {
+    let mut s = St::any(3);
+    s.index = 0;
+    s.mask = !0;
+    s.cursor = 0;
+    kani::assume(s.inv(false));
+    // every entry has at most two destinations (bounds the iteration inside `any`)
+    let mut i = 0;
+    while i < 3 {
+        kani::assume(s.dst[i].count_ones() <= 2);
+        i += 1;
+    }
+    unsafe { LIST = Some(s) };
+    let b = chess_movegen::Board::standard();
+    let p = any_probe();
+    let got = b.is_legal(to_move(p));
+    assert!(got == s.owns(p, !0));
+    kani::cover!(got);
+    kani::cover!(!got && p.promo.is_some());
+}
